@@ -1,6 +1,62 @@
-(* C08 - statements only (placeholder until Backup_proofs is in). *)
-Require Import ZArith List. Require Import IW.Lib.CInt IW.Gen.Facts IW.WAL.Rec IW.WAL.Rec_proofs.
+(* C08 - an online backup taken under load is a consistent snapshot.  Statements only.
+   Model: WAL/Backup.v (image layout written by iwal_online_backup, _iwkv_check_online_backup, recover_mode 2)
+   on top of WAL/Replay.v.  What is proved is the image half of the property: whatever the copy loops read -
+   a main file M and a (prefix of a) well-formed log L, with or without reset marks - the image splits back
+   into exactly (M, L) and opening it yields the main-file state at the last visible savepoint of L, applying
+   no half-written record (C05_no_half_write carries over: same replay).  Since stage 5 appends a savepoint
+   under the exclusive lock and copies the rest of the log, that savepoint is the "single instant".
+   NOT proved (partial, see DESIGN C07/C08): that M is the state at the stage-2 checkpoint under every thread
+   schedule (M is read with pread while writers touch only their private mapping and checkpoints are suspended -
+   and the one case where this breaks, file growth during the copy, is the known finding
+   "growth-during-main-copy" found by checks/C08.py), and live_unaffected. *)
+Require Import ZArith List Bool. Require Import IW.Lib.CInt IW.Gen.Facts.
+Require Import IW.WAL.Rec IW.WAL.Rec_proofs IW.WAL.Scan IW.WAL.Scan_proofs IW.WAL.Replay IW.WAL.Replay_proofs
+  IW.WAL.Backup IW.WAL.Backup_proofs.
 Import ListNotations. Local Open Scope Z_scope.
-Theorem C08_layout : layout_ok = true.
-Proof. exact layout_facts. Qed.
-Print Assumptions C08_layout.
+
+(* a one-page main file with the two magic numbers the opener looks for, and a log with a reset mark *)
+Definition ex_main : bytes :=
+  le_enc 4 WAL_IWFSM_MAGICK ++ repeat 0 73 ++ le_enc 4 IWKV_MAGIC ++ repeat 0 4015.
+Definition ex_log : list rec :=
+  [RSep 0 36; RSet 65 100 4; RSavepoint 1000; RSep 0 4; RReset; RSep 0 35; RWrite 0 102 [1;2;3]; RSavepoint 2000;
+   RSep 0 24; RSet 66 101 2].
+
+Theorem C08_split_mk_image : forall m w, image_parts_ok m w -> split_image (mk_image m w) = Some (m, w).
+Proof. exact split_mk_image. Qed.
+Print Assumptions C08_split_mk_image.
+Example C08_split_mk_image_ex :
+  lenB ex_main = 4096 /\ rd 4 0 ex_main = WAL_IWFSM_MAGICK /\ rd 4 IWFSM_CUSTOM_HDR_DATA_OFFSET ex_main = IWKV_MAGIC /\
+  nth 0 (encode ex_log) 0 = WOP_SEP /\
+  split_image (mk_image ex_main (encode ex_log)) = Some (ex_main, encode ex_log) /\
+  split_image (mk_image ex_main []) = Some (ex_main, []).
+Proof. vm_compute. repeat split; reflexivity. Qed.
+
+(* recover_mode 2: the cut theorem of C05 holds for logs WITH reset marks *)
+Theorem C08_replay_cut_mode2 : forall ccrc rs (n : nat),
+  wf_log rs = true -> (ccrc = true -> crc_ok rs = true) -> (n <= length (encode rs))%nat ->
+  replay_ops_with sp_checks ccrc 2 0 (firstn n (encode rs)) = (VOk, ops_before rs 0 (last_sp sp_checks rs (Z.of_nat n))).
+Proof.
+  intros ccrc rs n H1 H2 H3. exact (replay_cut_mode2 sp_checks ccrc rs n H1 H2 (or_intror eq_refl) H3).
+Qed.
+Print Assumptions C08_replay_cut_mode2.
+Example C08_replay_cut_mode2_ex :
+  wf_log ex_log = true /\ no_reset ex_log = false /\
+  replay_ops_with sp_checks false 2 0 (encode ex_log) = (VOk, [ASet 65 100 4; AWrite 102 [1;2;3]]).
+Proof. vm_compute. repeat split; reflexivity. Qed.
+
+(* the image opens to the state at the last visible savepoint of the copied log *)
+Theorem C08_open_image_is_savepoint_state : forall ccrc rs (n : nat) main m,
+  wf_log rs = true -> (ccrc = true -> crc_ok rs = true) -> (n <= length (encode rs))%nat ->
+  image_parts_ok main (firstn n (encode rs)) ->
+  state_at rs main (last_sp sp_checks rs (Z.of_nat n)) = Some m ->
+  open_image ccrc (mk_image main (firstn n (encode rs))) = (VOk, m, ops_before rs 0 (last_sp sp_checks rs (Z.of_nat n))).
+Proof.
+  intros ccrc rs n main m H1 H2 H3 H4 H5.
+  exact (open_image_is_savepoint_state ccrc rs n main m H1 H2 (or_intror eq_refl) H3 H4 H5).
+Qed.
+Print Assumptions C08_open_image_is_savepoint_state.
+Example C08_open_image_is_savepoint_state_ex :
+  let r := open_image false (mk_image ex_main (encode ex_log)) in
+  fst (fst r) = VOk /\ snd r = [ASet 65 100 4; AWrite 102 [1;2;3]] /\
+  firstn 6 (skipn 100 (snd (fst r))) = [65;65;1;2;3;0] /\ lenB (snd (fst r)) = 4096.
+Proof. vm_compute. repeat split; reflexivity. Qed.
